@@ -5,14 +5,39 @@ PLAN = dict(
     steps=[
         step("wf-x86", "codegen-x86", "wf-x86", 150, 6000, shards_thorough=12),
         step("wf-print-contexts-x86", "codegen-x86", "wf-x86", 24, 200, shards_thorough=2, args=["printctx"]),
+        step("wf-a64", "codegen-a64", "wf-a64", 100, 4000, shards_thorough=8),
+        step("wf-rv", "codegen-all", "wf-rv", 100, 4000, shards_thorough=8, args=["--rv-only"]),
+        # the known finding label-collision-name-digits, instantiated for the current value of the label counter
+        step("label-collision-probe-x86", "codegen-x86", "wf-x86", 2, 8, shards_thorough=1, args=["c14probe"]),
+        step("label-collision-probe-a64", "codegen-a64", "wf-a64", 2, 8, shards_thorough=1, args=["c14probe"]),
+        step("label-collision-probe-rv", "codegen-rv", "wf-rv", 2, 8, shards_thorough=1, args=["c14probe"]),
     ],
-    rule="the REAL x86-64 instruction list of every corpus program and of n random Fun programs (identifiers resembling generated names: "
-         "lab1, cleanup, asm_main, share_f_0, lift_f__7, x0, a0; types with many xtors; literals of every magnitude) is checked by asm_wf: each "
-         "label defined once, every referenced label defined, externs declared and not redefined, every immediate/displacement encodable, "
-         "no non-existent instruction form. Non-trivial: every case; tags: label count (log2), imm64, table",
-    explanation="theorems: jump-table stride in the code image, jump_length = the crate's, encodability of all selected arithmetic/move/literal/"
-                "comparison instructions for all operands; labels and symbols are checked on the implementation's output (not proved)",
-    assumptions=["instr_wf follows the Intel SDM encodings of the forms the printer emits", "GNU as acceptance of the printed text is exercised by the native step of C01",
-                 "AArch64 / RISC-V parts pending their models"],
-    trusted=["coq/Sem/X86Wf.v (encodability predicate)"],
+    rule="the REAL instruction list of every corpus program and of n random programs is checked by the asm_wf of its back end: x86-64 "
+         "(Sem/X86Wf.v; inputs: corpus + random Fun programs with identifiers resembling generated names lab1, cleanup, asm_main, share_f_0, "
+         "lift_f__7, x0, a0, types with many xtors, literals of every magnitude + direct linear-AxCut programs + print contexts), AArch64 "
+         "(Sem/A64Wf.v; same inputs as C07), RISC-V (Sem/RVWf.v; print-free programs of codegen-all as in C08): each label defined once, every "
+         "referenced label defined, entry symbol defined, no label shadowing a called runtime symbol, externs declared (x86), every immediate / "
+         "displacement / shift / register class within the encodable range of the instruction form it is printed in (x86: imm32, disp32, mov "
+         "r64 imm64; A64: ADD/SUB/CMP imm12 optionally LSL 12, MOVZ/MOVN/MOVK 16-bit chunk shift 0/16/32/48, LDR/STR unsigned offset 0..32760 "
+         "multiple of 8, LDP/STP -512..504, Xn/SP/XZR positions, B.cond/ADR within 1 MiB; RV: ADDI/JALR/LW/SW 12-bit signed, x0..x31). The "
+         "steps label-collision-probe-* compile the witnesses of the known finding label-collision-name-digits instantiated for the CURRENT "
+         "value of the label counter (harness/src/c14probe.rs). Non-trivial: every case; tags: label count (log2), imm64, table, spills, "
+         "movk, print, mem, kb<code size>, guard | name-digits | noguard (was the program inside Sem/LabelGuard.labels_guard, the "
+         "hypothesis of the label theorems), open-calls, far-branch (RISC-V conditional branch beyond +-4 KiB even with the smallest "
+         "encodings: not a violation, label-relative reach is resolved by the assembler)",
+    explanation="theorems (Props/C14.v): x86 jump-table stride / jump_length = the crate's / encodability of all selected arithmetic, move, literal "
+                "and comparison instructions (round 1); round 2: label uniqueness and definedness PROVED for the generic code generator and every "
+                "back end obeying the label discipline labels_ok (proved for x86-64, AArch64, RISC-V), for translate, compile and the complete "
+                "routines, under the boolean guard labels_guard / calls_guard that the run-time check evaluates on every program (tag guard); "
+                "monotone counter, labels of a later call fresh; the guard cannot be dropped (C14_compile_labels_unique_refuted = known finding "
+                "label-collision-name-digits: VIOL class=label-collision-name-digits iff a label is defined twice AND LabelGuard.name_digits holds; "
+                "any other duplicate stays class=asm-ill-formed*); jump-table stride for AArch64 (B) and RISC-V (JAL x0). Encodability on "
+                "AArch64 / RISC-V is checked on the implementation's output, not proved",
+    assumptions=["instr_wf of Sem/X86Wf.v, Sem/A64Wf.v, Sem/RVWf.v follow the Intel SDM / Arm ARM / RISC-V unprivileged ISA encodings of the forms the printers emit",
+                 "GNU as acceptance of the printed x86-64 text is exercised by the native step of C01; no AArch64 / RISC-V assembler exists in the sandbox "
+                 "(the RISC-V text of this back end has no accepted concrete syntax: registers X5, no commas, `LW X5 8 X6`)",
+                 "RISC-V: fixed 4-byte encodings (no compressed extension), so a table entry `JAL X0 l` has the size jump_length assumes",
+                 "label theorems speak about programs inside labels_guard: lower-case definition names, non-lower-case type names, distinct xtors per "
+                 "switch, and no `_<digit>` in type names or none in xtor names (599/599 programs of the quick tier; the probes are outside by construction)"],
+    trusted=["coq/Sem/X86Wf.v, coq/Sem/A64Wf.v, coq/Sem/RVWf.v (encodability predicates)", "harness/src/c14probe.rs (builds the known-finding witnesses)"],
 )
